@@ -16,7 +16,7 @@ msg_ids = st.one_of(st.sampled_from(MSG_IDS), st.integers(0, 65535))
 pc_ids = st.integers(0, 127).map(lambda x: 2 * x + 1)
 uids = dg.uid_text
 STATUS_CODES = [0x0000, 0xB000, 0xB006, 0xB007, 0xA700, 0xA900, 0xC000, 0xC123, 0x0110, 0x0122, 0xFE00, 0x0001]
-outcomes = st.one_of(st.sampled_from(STATUS_CODES).map(lambda c: ('status', c)), st.just(('raise', None)),
+outcomes = st.one_of(st.sampled_from(STATUS_CODES).map(lambda c: ('status', c)), st.integers(0, 5).map(lambda k: ('raise', k)),
                      st.integers(0, 0xFFFF).map(lambda c: ('status', c)))
 REMOTE = {'aet': 'DEST', 'address': 'dest.example', 'port': 11112}
 
@@ -30,6 +30,18 @@ def alias(service, uid_list, in_file=None):
     return wrapper
 
 
+class AppCode(int):
+    """An application's own integer type for status codes (what enum.IntEnum members are)."""
+
+
+def handling_error(k):
+    """EventHandlingError as applications raise it: without arguments, with a text, or with details of what went
+    wrong (an errno, a code of their own) - none of which is a DIMSE status."""
+    from pynetdicom2 import exceptions
+    args = [(), ('scripted',), (0, 'database offline'), ('404',), (28, 'No space left on device'), (0xB000, 'see log')]
+    return exceptions.EventHandlingError(*args[(k or 0) % len(args)])
+
+
 def outcome_handler(outcome, cmd_name, record=None):
     from pynetdicom2 import statuses, dimsemessages, exceptions
 
@@ -37,8 +49,11 @@ def outcome_handler(outcome, cmd_name, record=None):
         if record is not None:
             record.append(args)
         if outcome[0] == 'raise':
-            raise exceptions.EventHandlingError('scripted')
-        return statuses.Status(outcome[1], getattr(dimsemessages, cmd_name))
+            raise handling_error(outcome[1])
+        code = outcome[1]
+        if code % 4 == 1 or code in (0xFF00, 0xB000):
+            code = AppCode(code)        # (the application keeps its codes in an int subclass - an IntEnum, say)
+        return statuses.Status(code, getattr(dimsemessages, cmd_name))
     return handler
 
 
@@ -130,15 +145,15 @@ def find_case(value, service_name='qr_find_scp', sop_default=None):
 
     def on_find(ctx, ds):
         if outcome_kind == 'raise-at-call':
-            raise exceptions.EventHandlingError('scripted')
+            raise handling_error(msg_id)
 
         def gen():
             for i in range(nmatch):
                 if outcome_kind == 'raise-midway' and i == nmatch // 2:
-                    raise exceptions.EventHandlingError('scripted')
+                    raise handling_error(msg_id)
                 yield svc.simple_ds(PatientName='M%d' % i), statuses.C_FIND_PENDING
             if outcome_kind == 'raise-midway' and nmatch == 0:
-                raise exceptions.EventHandlingError('scripted')
+                raise handling_error(msg_id)
         return gen()
     ae = svc.make_server({'on_receive_find': on_find}, [alias(getattr(sopclass, service_name), [sop])])
     req = {0x0002: sop, 0x0100: 0x0020, 0x0110: msg_id, 0x0700: 0}
@@ -172,7 +187,7 @@ def move_case(value):
 
     def on_move(ctx, ds, destination):
         if outcome_kind == 'raise':
-            raise exceptions.EventHandlingError('scripted')
+            raise handling_error(msg_id)
         dss = [svc.simple_ds(PatientName='S%d' % i, SOPClassUID=svc.SC_STORAGE, SOPInstanceUID='1.2.3.%d' % (i + 1))
                for i in range(nsub)]
         return dict(REMOTE), nsub, iter(dss)
@@ -301,7 +316,7 @@ def action_case(value):
     def on_request(remote_ae, uids_):
         seen.append((remote_ae, list(uids_)))
         if outcome_kind == 'raise':
-            raise exceptions.EventHandlingError('scripted')
+            raise handling_error(msg_id)
         return dict(REMOTE), shaped(ok), shaped(bad)
     ae = svc.make_server({'on_commitment_request': on_request}, [sopclass.StorageCommitment()])
     req = {0x0003: svc.COMMITMENT, 0x0100: 0x0130, 0x0110: msg_id, 0x1001: svc.COMMITMENT_INSTANCE, 0x1008: 1}
@@ -370,7 +385,7 @@ def action_retry_case(mode, k):
 
     def on_request(remote_ae, uids_):
         if fail_handler[0]:
-            raise exceptions.EventHandlingError('scripted')
+            raise handling_error(k)
         return dict(REMOTE), list(refs), []
     req = {0x0003: svc.COMMITMENT, 0x0100: 0x0130, 0x0110: 3, 0x1001: svc.COMMITMENT_INSTANCE, 0x1008: 1}
     data = svc.enc_ds(commitment_ds(transaction, refs))
@@ -398,7 +413,7 @@ def report_case(value):
         seen.append((str(transaction_uid), [tuple(map(str, s)) for s in success],
                      [(str(f[0]), str(f[1]), int(f[2])) for f in failure]))
         if outcome_kind == 'raise':
-            raise exceptions.EventHandlingError('scripted')
+            raise handling_error(msg_id)
     ae = svc.make_server({'on_commitment_response': on_response}, [sopclass.StorageCommitment()])
     event_type = 2 if nfail else 1
     req = {0x0002: svc.COMMITMENT, 0x0100: 0x0100, 0x0110: msg_id, 0x1000: svc.COMMITMENT_INSTANCE, 0x1002: event_type}
